@@ -435,7 +435,7 @@ class TlWorld(HistoryWorld):
             ends64 = [None, 0, 1, -1, 2 ** 63 - 1, -2 ** 63, -2 ** 63, rng.getrandbits(63)]
             return {'op': 'blockid', 'wc': rng.choice(ends32), 'shard': rng.choice(ends64), 'seqno': rng.choice([0, 1, 2 ** 31 - 1, rng.getrandbits(31)]),
                     'rh': bytes(rng.getrandbits(8) for _ in range(32)).hex(), 'fh': rng.choice([bytes(32), bytes(rng.getrandbits(8) for _ in range(32))]).hex(),
-                    'hash_as': rng.choice(['bytes', 'hex']), 'diff': rng.choice(['wc', 'shard', 'seqno', 'rh', 'fh'])}
+                    'hash_as': rng.choice(['bytes', 'hex']), 'diff': rng.choice(['wc', 'shard', 'seqno', 'rh', 'fh', 'wc-hash-twin', 'seqno-hash-twin', 'shard-hash-twin'])}
         ref = st.ref
         dom = ref.domain
         r = rng.random()
@@ -845,6 +845,17 @@ class TlWorld(HistoryWorld):
 
     # ---- block ids ----
     def op_blockid(self, st, op, ctx):
+        if op.get('diff', '').endswith('-hash-twin'):
+            # the neighbouring identifier differs in ONE field whose two values have the same Python hash (hash(-1) == hash(-2);
+            # integers that differ by 2^61-1): equal hashes are allowed, equal identifiers they are not
+            op = dict(op)
+            if op['diff'] == 'wc-hash-twin':
+                op['wc'] = -1
+            elif op['diff'] == 'seqno-hash-twin':
+                op['seqno'] = -1
+            else:
+                op['shard'] = (op['shard'] or 5) % (2 ** 60)
+            ctx.probe('neighbouring-identifier-with-colliding-field-hash')
         rh, fh = bytes.fromhex(op['rh']), bytes.fromhex(op['fh'])
         as_hex = op['hash_as'] == 'hex'
         ok, b = call(BlockIdExt, op['wc'], op['shard'], op['seqno'], op['rh'] if as_hex else rh, op['fh'] if as_hex else fh)
@@ -890,6 +901,12 @@ class TlWorld(HistoryWorld):
             o['seqno'] = (op['seqno'] + 1) % 2 ** 31
         elif diff == 'wc':
             o['wc'] = -1 if op['wc'] != -1 else 0
+        elif diff == 'wc-hash-twin':
+            o['wc'] = -2
+        elif diff == 'seqno-hash-twin':
+            o['seqno'] = -2
+        elif diff == 'shard-hash-twin':
+            o['shard'] = shard + 2 ** 61 - 1
         else:
             o['shard'] = shard ^ (1 << 62)
         other = BlockIdExt(o['wc'], o['shard'], o['seqno'], o['rh'], o['fh'])
